@@ -17,6 +17,10 @@ def run(m):
         p = os.path.join(wt, m['file']); s = open(p).read()
         if s.count(m['old']) < 1: return dict(id=m['id'], prop=m['prop'], error='old text not found')
         open(p, 'w').write(s.replace(m['old'], m['new'], 1))
+        for ex in m.get('extra', []):
+            p2 = os.path.join(wt, ex['file']); s2 = open(p2).read()
+            if s2.count(ex['old']) < 1: return dict(id=m['id'], prop=m['prop'], error='extra old text not found')
+            open(p2, 'w').write(s2.replace(ex['old'], ex['new'], 1))
         t0 = time.time()
         r = subprocess.run(['./check', m['prop'], '--tier', a.tier], cwd='/verif', env=dict(os.environ, VERIF_REPO=wt), stdout=subprocess.PIPE, stderr=subprocess.STDOUT, text=True)
         verd = [l.strip() for l in r.stdout.splitlines() if l.strip().startswith('verdict=')]
